@@ -328,7 +328,10 @@ func init() {
 		mk(zstd.WithEncoderLevel(zstd.SpeedDefault), zstd.WithZeroFrames(true)),
 	}
 	var err error
-	zDecoder, err = zstd.NewReader(nil, zstd.WithDecoderConcurrency(1))
+	// The memory bound keeps the oracle from allocating what a hostile
+	// frame header announces (DecodeAll pre-allocates the declared content
+	// size); objects in these checks are at most 64 KiB.
+	zDecoder, err = zstd.NewReader(nil, zstd.WithDecoderConcurrency(1), zstd.WithDecoderMaxMemory(8<<20))
 	if err != nil {
 		panic(err)
 	}
